@@ -4,6 +4,7 @@ From Coq Require Import List ZArith Bool.
 From VLib Require Import Codec Machine.
 From VModel Require Import WRand.
 From VProof Require Import WRand_proofs.
+From VProof Require WRandQ_proofs.
 Import ListNotations.
 Open Scope Z_scope.
 
@@ -92,6 +93,28 @@ Theorem C38_circuit : forall rpms ops c c', cb_inv c -> forallb op_wf ops = true
   (forall M, 0 <= M -> cb_out c <= M -> picks_max M ops = true -> cb_out c' <= M).
 Proof. exact circuit_breaking. Qed.
 Print Assumptions C38_circuit.
+
+(* EDF selector, exact-arithmetic model (deadlines (c_i+1)/w_i as exact rationals, ties to the
+   item added first): Next returns an item with the least deadline ... *)
+Theorem C38_edf_q_next_is_earliest_deadline : forall cs ws,
+  length cs = length ws -> cs <> [] -> Forall (fun w => 0 < w) ws -> Forall (fun c => 0 <= c) cs ->
+  let m := Z.to_nat (q_next cs ws) in
+  0 <= q_next cs ws /\ (m < length cs)%nat /\
+  forall k, (k < length cs)%nat ->
+    (nth m cs 0 + 1) * nth k ws 0 <= (nth k cs 0 + 1) * nth m ws 0.
+Proof. exact WRandQ_proofs.q_next_spec. Qed.
+Print Assumptions C38_edf_q_next_is_earliest_deadline.
+
+(* ... and for all positive weights the first k*W picks (W = sum of the weights) contain item i
+   exactly k*w_i times: items are returned in exact proportion to their weights.
+   The float64 implementation (edfWrr: deadline += 1.0/float64(w)) is modelled bit-exactly
+   ([edf_run], PrimFloat) and compared with the real code on every run; rounding of 1/w and of
+   the running sums can move a pick across the k*W boundary, so for it the statement is
+   evaluated on traces with a slack of one pick (clause 4: |count_i - k*w_i| <= 1). *)
+Theorem C38_edf_q : forall ws k, Forall (fun w => 0 < w) ws -> ws <> [] -> 0 <= k ->
+  q_run (Z.to_nat (k * sumz ws)) (map (fun _ => 0) ws) ws = map (Z.mul k) ws.
+Proof. exact WRandQ_proofs.edf_q_exact. Qed.
+Print Assumptions C38_edf_q.
 
 (* The executable predicate evaluated on implementation traces (all clauses except the
    float64 EDF clause 4, which is checked on traces only) holds on every model trace. *)
